@@ -373,7 +373,7 @@ func getACMPolicyStatusRefFromMeasurement(
 	m *types.MeasuredData,
 	txtPublicRegisters *txtpublic.TXTPublic,
 ) *types.Reference {
-	if txtPublicRegisters == nil {
+	if txtPublicRegisters == nil || m == nil {
 		return nil
 	}
 
